@@ -175,6 +175,7 @@ def check_C01(F, tier, t0):
     guarded(R, 'T tokens', engine_t.rule_tokens, F, R, 'all')
     guarded(R, 'T operators', engine_t.rule_operator_tables, F, R)
     guarded(R, 'T regex', engine_t.rule_regex, F, R)
+    guarded(R, 'X5', engine_x.rule_X5, F, R)      # two names of one formula must not share an id: they would be one variable of the diagram
     R.floor('functions', 28); R.floor('worlds', 40); R.floor('T:symbol-spellings', 20); R.floor('T:keyword-spellings', 23)
     R.floor('T:binary-operator-rows', 8); R.floor('T:counting-operator-rows', 5); R.floor('T:fixed-point-rows', 2)
     return finish(R, 'other', tier, t0,
@@ -313,6 +314,7 @@ def check_C06(F, tier, t0):
     R = Report('C06')
     E = make_engine(F)
     guarded(R, 'FP loop shape', run_S, R, E, ['fp'])
+    guarded(R, 'XR references', engine_x.rule_references, F, R)      # a definition that mentions the bound name is substituted into, looked into and evaluated
     guarded(R, 'S replace_var', run_S, R, E, [RVF])
     def fixarm():
         res = E.explore(EVF)
@@ -412,6 +414,7 @@ def check_C09(F, tier, t0):
     guarded(R, 'S replace_var', run_S, R, E, [RVF])
     guarded(R, 'S/O quantifier support', run_S, R, E, ['exists_impl', 'exists', 'all'])
     guarded(R, 'X4 vars', engine_x.rule_X4, F, R, ('vars', 'export'))      # -r lists every variable of the text (vars, not free_vars)
+    guarded(R, 'X5', engine_x.rule_X5, F, R)      # every name its own id: a name that shares an id with another drops out of the variable list
     guarded(R, 'X3 order', engine_x.rule_X3, F, R)
     front_end(R, F)
     R.floor('functions', 5); R.floor('worlds', 16); R.floor('X4:extract_vars', 1); R.floor('X4:free_vars-fill', 1)
@@ -428,7 +431,7 @@ def check_C10(F, tier, t0):
     guarded(R, 'X1', engine_x.rule_X1_printers, F, R)
     guarded(R, 'X2', engine_x.rule_X2, F, R, ('table',))
     guarded(R, 'X3', engine_x.rule_X3, F, R)
-    guarded(R, 'X4', engine_x.rule_X4, F, R, ('parse', 'model', 'retain', 'vars', 'tablefilter'))
+    guarded(R, 'X4', engine_x.rule_X4, F, R, ('parse', 'model', 'retain', 'vars', 'tablefilter', 'order'))
     front_end(R, F)
     guarded(R, 'X9', engine_x.rule_X9, F, R)
     # the header is free_vars: it is right only if the free-variable analysis is
@@ -459,6 +462,7 @@ def check_C11(F, tier, t0):
     # the semantic core: every operation is proved for an arbitrary total order of an arbitrary symbol type (C01 / C03 / C04 / C05)
     E = make_engine(F)
     evaluation(R, E)
+    guarded(R, 'S var_is_free', run_S, R, E, [FRF], spec_bdd.B, False)      # the same named variables under every order: the free-variable analysis must not depend on ids
     R.floor('X5:id-registration-sites', 1); R.floor('X4:ordering-flow', 1); R.floor('X4:export-ordering', 1)
     return finish(R, 'other', tier, t0,
         'Clauses: counter invariant of tokenize (after every registration the fresh-id counter exceeds every registered id, names are looked up before a fresh id is taken); '
@@ -502,7 +506,10 @@ def check_C12(F, tier, t0):
             base = s.fn.split('::{closure')[0]
             if base not in _facts.baseline_fns():
                 roots = _facts.baseline_roots(s.crate, base)
-                for r_ in sorted(roots or ()):
+                # ... among the functions that can run at all from the entry points (a helper shared with a function nobody calls on these
+                # paths, e.g. BDDEnv::find, is not judged on that function's behalf)
+                live = [r_ for r_ in sorted(roots or ()) if r_ in reach] or sorted(roots or ())
+                for r_ in live:
                     s2 = _copy.copy(s); s2.fn = r_; variants.append(s2)
             def discharge(sv):
                 for rule in (D.R0, D.R11, D.R8, D.R4, D.R10, D.R6, D.RS):
@@ -543,6 +550,7 @@ def check_C12(F, tier, t0):
     guarded(R, 'P', p)
     # the `is not a free variable` panic of to_free_index is unreachable only if the free-variable analysis is right
     guarded(R, 'S var_is_free', run_S, R, E, [FRF], spec_bdd.B, False)
+    guarded(R, 'X4 free_vars', engine_x.rule_X4, F, R, ('vars',))          # ... and is what fills free_vars (a variable that is free but not listed panics in to_free_index)
     guarded(R, 'S replace_var', run_S, R, E, [RVF])                      # ... and only if no bound name leaks into the diagram (C09):
     guarded(R, 'S/O quantifier support', run_S, R, E, ['exists_impl', 'exists', 'all'])      # substitution is capture-free, quantified symbols are eliminated
     R.samples = R.samples[:12]
@@ -573,6 +581,7 @@ def check_C13(F, tier, t0):
     guarded(R, 'E8', engine_e.rule_E8, F, R)
     guarded(R, 'X5', engine_x.rule_X5, F, R)      # in a shared environment a second formula's new variable must not take an id that is in use
     guarded(R, 'X7', engine_x.rule_X7, F, R)      # the exported diagram shows a shared node once (de-duplicated node and edge lists)
+    guarded(R, 'XR', engine_x.rule_references, F, R)      # evaluating a formula leaves its definitions alone (a second evaluation sees what the first saw)
     guarded(R, 'H', engine_e.rule_H, F, R)      # the table is keyed by the diagram: Eq / Ord / Hash of the symbol must read the same key
     def g():
         for (key, rule, msg, loc, cell) in engine_g.guard_regions(F, R):
@@ -610,6 +619,7 @@ def check_C14(F, tier, t0):
     guarded(R, 'S helper predicates', run_S, R, make_engine(F), spec_bdd.HELPER_FNS, spec_bdd.B, False)
     guarded(R, 'X6', engine_x.rule_X6, F, R)
     guarded(R, 'X4 dot filter', engine_x.rule_X4, F, R, ('dotfilter',))
+    guarded(R, 'X10 node labels', engine_x.rule_X10, F, R)
     guarded(R, 'X7', engine_x.rule_X7, F, R)
     guarded(R, 'X8', engine_x.rule_X8, F, R, 'rsbdd', 'executable')
     guarded(R, 'T filter spellings', engine_t.rule_tte, F, R)
@@ -665,6 +675,7 @@ def check_C18(F, tier, t0):
     guarded(R, 'L writers', engine_l.rule_graph_writers, F, R)
     guarded(R, 'L colours', engine_l.rule_colour_vertices, F, R)
     guarded(R, 'X8', engine_x.rule_X8, F, R, 'random_graph_gen')
+    guarded(R, 'X8 order', engine_x.rule_X8_after_input, F, R, 'random_graph_gen', ('random_graph_gen::read_graph', 'random_graph_gen::generate_graph', 'random_graph_gen::augment_colors'))
     R.floor('L:refuse-not-truncate', 1); R.floor('L:candidate-push-sites', 1); R.floor('L:complete-count', 1); R.floor('L:truth-table-rows', 22); R.floor('L:edge-writer-sites', 3)
     return finish(R, 'other', tier, t0,
         'Clauses: generate_graph returns Ok only with the checked slice candidates[0..E] and Err otherwise (refuse, never truncate; exactly E edges by the slice contract); '
